@@ -278,16 +278,6 @@ func (p *Prog) flatten() {
 			tops = append(tops, f)
 		}
 	}
-	any := false
-	for _, f := range tops {
-		if isHelper(f) {
-			any = true
-		}
-	}
-	if !any {
-		p.Flat = &ssa.FlattenStats{}
-		return
-	}
 	p.Flat = ssa.FlattenAll(tops, isHelper)
 	/* Which helpers are still referenced from non-helper code? */
 	still := map[*ssa.Function]bool{}
